@@ -35,19 +35,23 @@ def flatMapOp {α β} (elems : α → List β) : LocalOp α β where
 * item: `acc = accumulator(value or seed, item)`; exception → `OnErrorMux`, state unchanged.
 * completion: terminator (if any) applied to the state, emitted unless `reduce`; with `reduce`
   the state (or the seed) is emitted. -/
+def scanNext {α γ} (g : γ → α → Except Err γ) (seed : γ) (reduce : Bool) (s : Option γ) (x : α) :
+    Option γ × List (LOut γ) :=
+  match g (s.getD seed) x with
+  | .ok a => (some a, if reduce then [] else [.item a])
+  | .error e => (s, [.err e])
+
+def scanFin {γ} (seed : γ) (reduce : Bool) (term : Option (γ → γ)) (s : Option γ) : List (LOut γ) :=
+  match term with
+  | some t => if reduce then [.item (t (s.getD seed))] else [.item (t (s.getD seed))]
+  | none => if reduce then [.item (s.getD seed)] else []
+
 def scanOp {α γ} (g : γ → α → Except Err γ) (seed : γ) (reduce : Bool) (term : Option (γ → γ)) :
     LocalOp α γ where
   σ := Option γ
   init := none
-  next := fun s x =>
-    match g (s.getD seed) x with
-    | .ok a => (some a, if reduce then [] else [.item a])
-    | .error e => (s, [.err e])
-  fin := fun s =>
-    let (s1, o1) := match term with
-      | some t => let a := t (s.getD seed); (some a, if reduce then [] else [LOut.item a])
-      | none => (s, [])
-    o1 ++ (if reduce then [.item (s1.getD seed)] else [])
+  next := scanNext g seed reduce
+  fin := scanFin seed reduce term
 
 /-- rxsci/operators/first.py `first_mux` (bool state, default False) -/
 def firstOp {α} : LocalOp α α where
